@@ -185,9 +185,6 @@ def visit(visitor, obj, attr, varc):
                 if varIdx != otTables.NO_VARIATION_INDEX:
                     major = varIdx >> 16
                     minor = varIdx & 0xFFFF
-                    vec = varData.Item[varIdx & 0xFFFF]
-                    major = varIdx >> 16
-                    minor = varIdx & 0xFFFF
                     varData = store.MultiVarData[major]
                     vec = varData.Item[minor]
                     storeBuilder.setSupports(store.get_supports(major, fvar.axes))
